@@ -15,6 +15,7 @@
 #include <string>
 #include <vector>
 #include <sstream>
+#include <iostream>
 #include <unistd.h>
 #include <fcntl.h>
 #include <signal.h>
@@ -25,7 +26,7 @@
 typedef std::vector<unsigned char> bytes;
 static FILE *res = NULL;
 static std::string scratch = "/tmp";
-static int op_timeout_ms = 10000;
+static int op_timeout_ms = 5000;
 
 static bytes unhex(const std::string &s)
 {
@@ -156,6 +157,45 @@ static std::string wlog_str(const memfile &m)
   return o.str();
 }
 
+// ---- capture of what the library prints on fd 1 (result texts) ----
+static std::string cap_path;
+static void cap_begin()
+{
+  cap_path = scratch + "/wv_cap_XXXXXX";
+  std::vector<char> t(cap_path.begin(), cap_path.end());
+  t.push_back(0);
+  int fd = mkstemp(t.data());
+  cap_path = t.data();
+  fflush(stdout);
+  dup2(fd, 1);
+  close(fd);
+}
+static std::string cap_end()
+{
+  fflush(stdout);
+  std::cout.flush();
+  bytes b = read_file(cap_path);
+  unlink(cap_path.c_str());
+  int nul = open("/dev/null", O_WRONLY);
+  dup2(nul, 1);
+  close(nul);
+  return std::string(b.begin(), b.end());
+}
+static int result_code(const std::string &txt)
+{
+  if (txt.find("Verification passed!") != std::string::npos || txt.find("Decryption is over!") != std::string::npos)
+    return 0;
+  if (txt.find("Input file is too short.") != std::string::npos)
+    return 1;
+  if (txt.find("Wrong key or File not complete.") != std::string::npos)
+    return 2;
+  if (txt.find("Aes / hash mode not match.") != std::string::npos)
+    return 3;
+  if (txt.find("Wrong magic number.") != std::string::npos)
+    return 4;
+  return -1;
+}
+
 // ---- file-level operations (run inside a forked child) ----
 // enc CM HM T KEY SEED PLAIN [nobuf]
 static std::string op_enc(const std::vector<std::string> &a)
@@ -177,7 +217,7 @@ static std::string op_enc(const std::vector<std::string> &a)
   bytes after = read_file(inpath);
   unlink(inpath.c_str());
   std::ostringstream o;
-  o << (r ? "1" : "0") << " out=" << hex(out.data) << " wlog=" << wlog_str(out) << " inmod=" << (after == plain ? 0 : 1);
+  o << (r ? "OK " : "FAILED ") << hex(out.data) << " | wlog=" << wlog_str(out) << " inmod=" << (after == plain ? 0 : 1);
   return o.str();
 }
 // dec T KEY FILE   |  ver T KEY FILE
@@ -190,15 +230,21 @@ static std::string op_decver(const std::vector<std::string> &a, bool dec)
   memfile out;
   FILE *fo = open_mem(&out, "w+", false);
   bool r;
+  cap_begin();
   {
-    Settings st(-1, -1, true);
+    Settings st(-1, -1, false);
     runcrypt rc(fin, fo, key.data(), st, (u8_t)T);
     r = dec ? rc.execute_decrypt(file.size()) : rc.execute_verify(file.size());
   }
+  int code = result_code(cap_end());
   bytes after = read_file(inpath);
   unlink(inpath.c_str());
   std::ostringstream o;
-  o << (r ? "1" : "0") << " out=" << hex(out.data) << " nwrites=" << out.wlog.size() << " inmod=" << (after == file ? 0 : 1);
+  if (r)
+    o << "OK " << (dec ? hex(out.data) : std::string("-"));
+  else
+    o << "FAIL " << code;
+  o << " | flag=" << (r ? 1 : 0) << " code=" << code << " outlen=" << out.data.size() << " nwrites=" << out.wlog.size() << " inmod=" << (after == file ? 0 : 1);
   return o.str();
 }
 
